@@ -30,8 +30,13 @@ def run_case(arg):
         scratch.cleanup()
 
 
+def _np(p):
+    # the shim log is lexically normalised (fclones builds move targets as DIR/./abs/path)
+    return os.path.normpath(p) if p and p.startswith(b"/") else (p or b"")
+
+
 def norm_ops(ops):
-    return sorted((k, p, t or b"") for k, p, t in ops)
+    return sorted((k, _np(p), _np(t) if k != "softlink" else (t or b"")) for k, p, t in ops)
 
 
 def tree_shape(inv, root):
